@@ -27,9 +27,10 @@ PID = "C06"
 
 THEOREMS = [
     "C06_generated_facts_ok", "C06_routes_guarded", "C06_regex_matcher_correct", "C06_type_regex_exact",
-    "C06_field_regex_exact", "C06_validators_exact", "C06_validators_complete", "C06_refuted_validators_strict",
-    "C06_fieldtype_resolves_in_whitelist", "C06_fieldtype_rejects_others", "C06_slots", "C06_slots_partial",
-    "C06_refuted_slots_duplicates", "C06_no_injection", "C06_interpolated_text_origin",
+    "C06_field_regex_exact", "C06_generated_regexes_end_in_Z", "C06_validators_exact", "C06_validators_complete",
+    "C06_validators_iff", "C06_prefix_refuted_dollar", "C06_dollar_facts_ok", "C06_dollar_slack",
+    "C06_bytes_names_validated", "C06_fieldtype_resolves_in_whitelist", "C06_fieldtype_rejects_others", "C06_slots",
+    "C06_slots_partial", "C06_refuted_slots_duplicates", "C06_no_injection", "C06_interpolated_text_origin",
     "C06_refuted_template_global_capture", "C06_hyp_satisfiable",
 ]
 
@@ -201,6 +202,12 @@ class Impl:
         self.exec_log = []
         self.import_log = []
         out = dict(route=route)
+        if route.endswith("-bytes"):
+            # the case is written with one code point (< 256) per byte; deliver real byte strings
+            name = name.encode("latin-1")
+            fields = [(t.encode("latin-1"), n.encode("latin-1")) for t, n in fields]
+            route = route[:-len("-bytes")]
+            out["route"] = route + "-bytes"
         try:
             if route == "ctor":
                 d = self.base.RecordDescriptor(name, fields)
@@ -487,6 +494,27 @@ class Gen:
                 fs = [("string", x) for x in combo]
                 for route in ROUTES:
                     yield route, "t/" + self.fresh(), fs, "exhaustive-field-lists"
+        # 4d. names delivered as BYTES (constructor arguments, msgpack bin values of a descriptor frame) with invalid /
+        #     truncated / overlong / non-ASCII UTF-8 at every position (written one code point per byte)
+        bseqs = ["\xff", "\xfe", "\x80", "\xc3", "\xc3\xa9", "\xe2\x82", "\xed\xa0\x80", "\xc0\xaf", "\xf0\x9f\x98", "\xf8"]
+        for route in ("ctor-bytes", "frame-bytes"):
+            yield route, "evil/" + self.fresh(), [("string", "payload"), ("net.ipaddress[]", "from")], "bytes-valid"
+            yield route, "evil\xff/\xfetype", [("string", "payload")], "bytes-invalid-utf8"
+            yield route, "t/" + self.fresh(), [("str\xffing", "pay\xffload"), ("net.ip\xffaddress", "b")], "bytes-invalid-utf8"
+            for q in bseqs:
+                host = "evil/type"
+                for pos in range(len(host) + 1):
+                    yield route, host[:pos] + q + host[pos:], [("string", "payload")], "bytes-invalid-utf8-type-name"
+                host = "payload"
+                for pos in range(len(host) + 1):
+                    yield route, "t/" + self.fresh(), [("varint", "a"), ("string", host[:pos] + q + host[pos:])], "bytes-invalid-utf8-field-name"
+                host = "string"
+                for pos in range(len(host) + 1):
+                    yield route, "t/" + self.fresh(), [(host[:pos] + q + host[pos:], "f")], "bytes-invalid-utf8-field-type"
+            for q in bseqs[:3]:
+                host = "net.ipaddress[]"
+                for pos in range(len(host) + 1):
+                    yield route, "t/" + self.fresh(), [(host[:pos] + q + host[pos:], "f")], "bytes-invalid-utf8-field-type"
         # 5b. namespace prefixes of the whitelist tree (after every whitelisted module has been imported above)
         for pfx in whitelist_prefixes(self.impl.whitelist):
             for route in ROUTES:
@@ -576,6 +604,18 @@ def judge(impl, route, name, fields, res, twin_cache, kf):
     if not res["accepted"]:
         if not res.get("is_exception", True):
             return "the definition was not rejected with an error but ended in %s" % res["error"], None, info
+        if res["reached_exec"] and not (g_name and g_fields and g_types):
+            return ("a definition outside the grammar passed the validators and its text was handed to exec (refused only by "
+                    "the compiler: %s)" % res["error"]), None, info
+        # a name of the grammar plus one trailing newline (what "$" used to let through) is refused by the validators
+        def nl(x, pred):
+            return isinstance(x, str) and x.endswith("\n") and pred(x[:-1])
+        names_ok_or_nl = (g_name or nl(name, type_grammar)) and all(ident(n) or nl(n, ident) for _, n in fields)
+        has_nl = nl(name, type_grammar) or any(nl(n, ident) for _, n in fields)
+        if has_nl and names_ok_or_nl and g_types:
+            info["trailing_newline"] = True
+            if res["error"] != "RecordDescriptorError":
+                return "a name with one trailing newline was refused with %s instead of RecordDescriptorError" % res["error"], None, info
         return None, None, info
     d = res["desc"]
     # accepted: only if grammar
@@ -866,7 +906,8 @@ def run(ctx):
         "frame to RecordPacker.unpack, a JSON descriptor line to JsonRecordPacker.unpack and an Avro schema with embedded "
         "definition: every symbol of a %d-symbol hostile alphabet (ASCII punctuation, NUL, CR, LF, tab, quotes, unicode "
         "look-alikes and separators, a lone surrogate) x {prefix, middle, suffix} x {type name, field name, field type} x 4 "
-        "routes; injection payloads per template position carrying a tripwire; the trailing-newline residual at every "
+        "routes (plus constructor and descriptor frame with every name delivered as BYTES: invalid / truncated / overlong UTF-8 at "
+        "every position); injection payloads per template position carrying a tripwire; names with one trailing newline at every "
         "position; a keyword-named field next to an invalid / reserved / underscore name at every position; EXHAUSTIVELY every "
         "list of <= 3 field names over {valid, keyword, reserved, underscore, invalid, trailing newline}; all Python keywords as field and type names; template identifiers; reserved and underscore names; every "
         "whitelist entry plain / list / list-of-list / wrong case; duplicates; 10^4-character names; seeded random mostly-"
@@ -879,8 +920,12 @@ def run(ctx):
         "CPython's re module is modelled for the constructs present (coq/lib/Regex.v, derivative matcher proved correct "
         "against the textbook denotation; `$` = end or before one final newline) and validated exhaustively on all strings "
         "of length <= 4 over class representatives through the real validators",
-        "CPython's compile() is the oracle for the trailing-newline residual: names that pass the validators but are not "
-        "in the grammar are handed to the real constructor at every template position and must all raise",
+        "utils.to_str (decoding of names delivered as bytes) is tested behaviourally by the translator against "
+        "bytes.decode('utf-8','surrogateescape') on a battery of invalid sequences at every position (generated fact "
+        "nf_to_str_surrogateescape); C06_bytes_names_validated takes the decoder as a section variable with the two "
+        "hypotheses that battery checks (ASCII kept, anything else yields a non-ASCII code point)",
+        "a grammar-conforming type name that is a Python keyword (class, None, ...) reaches exec and is refused by CPython's "
+        "compile(): allowed by the property (it only limits what is accepted)",
         "str.format / repr / tuple-repr / str.replace are modelled by model/Names.v `render_text`, validated by comparing "
         "with the exact source captured from exec (module-level name `exec` of flow.record.base shadowed by the harness)",
         "importlib.import_module / getattr resolve inside flow.record.fieldtypes for whitelist entries (observed through a "
@@ -910,13 +955,12 @@ def run(ctx):
         impl.close()
     ctx.coverage["exhaustive_scope"] = "all %d strings of length <= %d over %r: %r" % (n_exh, depth, EXH_ALPHABET, exh_info)
 
-    # residual class must be closed by the compile oracle
-    residual = [r for r in recs if r["reached"] and not (r["g_name"] and r["g_fields"])]
-    for r in residual:
-        if r["accepted"]:          # (already reported by judge, kept as a guard)
-            ctx.violation("a name outside the grammar passed the validators and compiled", dict(kind="definition", **_rep(r)))
-            return
-    ctx.coverage["residual_trailing_newline_cases_all_raise"] = len(residual)
+    # names of the grammar plus one trailing newline: refused by the validators themselves (RecordDescriptorError), never
+    # handed to exec (judge() reports anything else as a violation)
+    residual = [r for r in recs if r.get("trailing_newline")]
+    ctx.coverage["trailing_newline_names_refused_by_validators"] = len(residual)
+    ctx.coverage["definitions_outside_grammar_that_reached_exec"] = len(
+        [r for r in recs if r["reached"] and not (r["g_name"] and r["g_fields"] and r["g_types"])])
 
     # model inside Coq
     terms = []
